@@ -109,3 +109,13 @@ def fill(claim, NA):
 		  "search; stationary-distribution oracle and exhaustive window search on the Python result; Poisson entry point vs custom-pmf entry point on the Poisson pmf.",
 		  "Trusted: Lean kernel + 3 axioms; harness; SciPy poisson.pmf values (inputs). Open: that the model's v passes the certificate for every instance (verified per instance, not "
 		  "as a theorem); optimality of the Zheng-Federgruen search over all integer pairs (exhaustive window per instance = labelled test).")
+
+	claim('C14',
+		  "Theorems (Props/C14.lean), over an ABSTRACT one-period cost G : Int -> Rat: cost_def (the Poisson (r,Q) cost is (K lambda + sum_{y=r+1}^{r+Q} G(y))/Q with the window-sum "
+		  "recursion), windowSum_shift, fzLoop_reports_cost / fz_reports_cost (the Federgruen-Zheng search reports exactly the cost of the pair it returns, Q >= 1), "
+		  "fzLoop_stops_at_increase (it stops exactly when adding the cheaper neighbouring position strictly increases the average cost), bisection_post (the reorder point "
+		  "returned for a given Q equalises the cost curve at r and r+Q within tol) and bisection_in_bracket, for any curve. Tie: r_q_poisson_exact and r_q_cost_poisson vs the exact "
+		  "model on the G/cdf tables the real code uses (r, Q exactly, costs 1e-9) + exhaustive integer window; normal-demand r_q_cost vs independent quadrature, r(Q) equalisation and "
+		  "minimisation over r, EIL / EOQ+SS / EOQB approximations vs their defining equations (SciPy-side labelled tests).",
+		  "Trusted: Lean kernel + 3 axioms; harness; SciPy (poisson pmf/cdf, norm, quad, fsolve) as black boxes. Open: global optimality of the search for unimodal G (fz_optimal) "
+		  "- currently local stopping certificate + exhaustive window per instance; normal-demand clauses are numerical (quad).")
